@@ -17,7 +17,7 @@ ASSUMPTIONS = [
 ]
 SHARDS = E.SHARDS
 TIMEOUT = E.TIMEOUT
-MINIMUMS = {"quick": {"enga_runs": 10, "second_launch_cases": 10, "generate_between_cases": 10, "feature:cleaned": 40, "distinct_plan_trace": 2500, "launch_events": 5000, "feature:dup": 200, "feature:dup-after-resubmit": 40, "feature:multirun:normal": 60, "feature:multirun:exception": 60}, "thorough": {"distinct_plan_trace": 80000, "launch_events": 150000, "feature:dup": 6000, "feature:multirun:normal": 2000, "feature:multirun:exception": 2000}}
+MINIMUMS = {"quick": {"enga_runs": 10, "second_launch_cases": 10, "second_launch_slow_end": 3, "generate_between_cases": 10, "feature:cleaned": 40, "distinct_plan_trace": 2500, "launch_events": 5000, "feature:dup": 200, "feature:dup-after-resubmit": 40, "feature:multirun:normal": 60, "feature:multirun:exception": 60}, "thorough": {"distinct_plan_trace": 80000, "launch_events": 150000, "feature:dup": 6000, "feature:multirun:normal": 2000, "feature:multirun:exception": 2000}}
 PROFILES = [PlanProfile(p_dup=0.6), PlanProfile(p_dup=0.4, multi_run=0.8, p_abort=0.5), PlanProfile(p_dup=0.3, multi_run=0.8, tokens=1), PlanProfile(multi_run=1.0, p_abort=0.7, p_fail=0.15), PlanProfile(multi_run=1.0, p_abort=0.2, p_clean=0.9, p_edge=0.6), PlanProfile(p_fail=0.5, p_resubmit=1.0, p_dup=0.6, max_jobs=4)]
 _engb_worker = E.make_worker(PROPERTY, PROFILES, {"quick": 1152, "thorough": 38400}, {"quick": 5, "thorough": 5}, nontrivial=lambda plan: len(plan["runs"]) > 1 or any(a[0] == "dup" for r in plan["runs"] for a in r["actions"]))
 replay = E.make_replay(PROPERTY)
